@@ -119,3 +119,36 @@ def run(ctx):
             "samples": [{k: c[k] for k in c if k != "feat"} for c in all_cases[:2]],
         },
     }
+
+
+def signature(case, agree, strict, relaxed):
+    """Known-finding signatures for GFI cases."""
+    if case["kind"] == "hist" and agree and not strict and relaxed:
+        return "K1-cond-flip-values"
+    return None
+
+
+def replay(ctx, payload):
+    """Re-run one recorded case on the current implementation and model."""
+    import subprocess
+    import overlay
+    case = payload.get("case", payload)
+    corpus = os.path.join(ctx.scratch, "replay_corpus.json")
+    json.dump([case], open(corpus, "w"))
+    root = ctx.ensure_overlay()
+    env = overlay.env_for(root)
+    env["PYTHONPATH"] = root + os.pathsep + common.HARNESS
+    out = os.path.join(ctx.scratch, "replay_cases.json")
+    pr = subprocess.run([common.PY, os.path.join(common.HARNESS, "worker_gfi.py"), out, "0", "0",
+                         case["kind"], f"corpus={corpus}"], env=env, capture_output=True, text=True)
+    if pr.returncode != 0:
+        return {"cases": [], "bad": [], "worker_errs": [pr.stderr[-1500:]], "coq_errs": [],
+                "coverage": {"evaluations": 0, "distinct_nontrivial": 0, "rule": "replay", "samples": []}}
+    cases = json.load(open(out))
+    vf = os.path.join(ctx.scratch, "replay_cases.v")
+    open(vf, "w").write(coqgen.cases_file(cases))
+    res = common.eval_cases_files([vf])[vf]
+    bad = res.get("bad", [])
+    return {"cases": cases, "bad": bad, "worker_errs": [], "coq_errs": [res["error"]] if "error" in res else [],
+            "coverage": {"evaluations": len(cases), "distinct_nontrivial": len(cases), "rule": "replay of one recorded case",
+                         "samples": [{k: c[k] for k in c if k != "feat"} for c in cases]}}
